@@ -373,6 +373,9 @@ class Wrapper(GroupNode):
     merging = False
 
     def query(self, parser):
+        if not self.nodes:
+            # The wrapped node was a dangling operator (e.g. "a NOT AND b")
+            return None
         q = self.nodes[0].query(parser)
         if q:
             return attach(self.qclass(q), self)
